@@ -192,9 +192,13 @@ fn log(x: &ExecRef, ev: Ev, queue: usize) {
         // C16: the reader can never be more than the queue length ahead of the consumer. A result the
         // consumer has taken inside a next() call that has not returned yet counts as received (on
         // real threads the reader may refill the recycled set before the harness logs the return).
-        let taken = e.received + if e.in_next { 1 } else { 0 };
+        // That result must exist, though: next() hands its previous set back only after it has
+        // received another result, so the extra set is legitimate only if a worker has finished a set
+        // that the harness has not yet seen arrive (WorkEnd is logged before the worker sends).
+        let finished = e.log.iter().filter(|x| matches!(x, Ev::WorkEnd { .. })).count() + if matches!(ev, Ev::WorkEnd { .. }) { 1 } else { 0 };
+        let taken = e.received + if e.in_next && finished > e.received { 1 } else { 0 };
         if queue != usize::MAX && e.fills > taken + queue {
-            bad = Some(("reader-ahead".into(), format!("{} sets filled but only {} received{}: more than queue length {} ahead", e.fills, e.received, if e.in_next { " (+1 possibly taken inside the pending next())" } else { "" }, queue)));
+            bad = Some(("reader-ahead".into(), format!("{} sets filled but only {} received{}: more than queue length {} ahead", e.fills, e.received, if e.in_next && finished > e.received { " (+1 possibly taken inside the pending next())" } else { "" }, queue)));
         }
         let infl = e.fills - e.received.min(e.fills);
         e.in_flight_max = e.in_flight_max.max(infl);
